@@ -30,11 +30,15 @@ func init() {
 					Docs:   map[string]*engine.DocCfg{"doc": cfg}, MaxPaths: 300000})
 			}
 			// twin relation
-			tw := samplePaths(cmp, tierN(tier, 200, 6000), rng)
+			tw := samplePaths(cmp, tierN(tier, 90, 6000), rng)
 			for i, p := range tw {
 				expr := p.Steps[0].Text
 				expr = expr[3 : len(expr)-2]
-				cfg := docCfg(2, tierN(tier, 2, 3), []string{"a", "b"}, engine.KNil|engine.KBool|engine.KFloat|engine.KString)
+				sc := uint32(engine.KNil | engine.KFloat | engine.KString)
+				if tier == "thorough" {
+					sc |= engine.KBool
+				}
+				cfg := docCfg(2, tierN(tier, 2, 3), []string{"a", "b"}, sc)
 				cfg.RootKinds = engine.KMap | engine.KArray
 				cfg.MaxLenAt = map[int]int{1: 1}
 				jobs = append(jobs, &engine.Job{ID: fmt.Sprintf("c10t-%d", i), Harness: "zzH_C10_twin",
